@@ -34,6 +34,26 @@ def still_bytes(w, h, mode="RGB", fmt="PNG", variant=0):
     return bio.getvalue()
 
 
+def _noise(im, seed):
+    """Deterministic pixel noise so that payloads do not compress to nothing."""
+    px = im.load()
+    w, h = im.size
+    x = (seed * 2654435761 + 12345) & 0xFFFFFFFF
+    for yy in range(h):
+        for xx in range(w):
+            x = (x * 1103515245 + 12345) & 0x7FFFFFFF
+            px[xx, yy] = ((x >> 16) & 255, (x >> 8) & 255, x & 255)
+
+
+def noisy_still_bytes(w, h, fmt="PNG", seed=1):
+    from PIL import Image
+    im = Image.new("RGB", (w, h))
+    _noise(im, seed)
+    bio = io.BytesIO()
+    im.save(bio, fmt)
+    return bio.getvalue()
+
+
 def anim_bytes(n, w, h, fmt="GIF", duration=40, variant=0):
     """n-frame animation; frame i is (nearly) solid frame_color(i) with an i-dependent
     corner so that frames are pairwise distinct after any quantisation."""
